@@ -146,7 +146,24 @@ def check_net(ctx, root, ncols, rs, n_pat, n_val, tag):
                                   replay=replay([xr]))
                     return
             if bad:
-                ctx.violation('c02-model-disagrees', bad + f' at row {xr} (implementation is self-consistent on this row)',
+                # failing-input search around the disagreeing row: mark one or two of its observed variables missing and evaluate the
+                # property's own statement on the implementation
+                obs = [v for v in scope if not np.isnan(x[v])]
+                for sub in [(v,) for v in obs] + [(a, b) for i, a in enumerate(obs) for b in obs[i + 1:]][:40]:
+                    y = x.copy()
+                    for v in sub:
+                        y[v] = np.nan
+                    bf2 = brute_force_impl(root, y, order, dom, scope)
+                    if bf2 is None:
+                        continue
+                    l2 = float(impl_ll(root, y[None, :])[0])
+                    if abs(math.exp(l2) - bf2) > 1e-5 + 2e-4 * bf2:
+                        yr = [None if np.isnan(t) else float(t) for t in y]
+                        ctx.violation('c02-marginal-vs-completions',
+                                      f'marginal likelihood {math.exp(l2)!r} != sum over completions of complete-evidence likelihoods {bf2!r} at row {yr}',
+                                      replay=replay([yr]))
+                        return
+                ctx.violation('c02-model-disagrees', bad + f' at row {xr} (implementation is self-consistent on this row and its neighbours)',
                               replay=replay([xr]), found_input=False)
                 return
 
